@@ -6,7 +6,9 @@
    mutex holder's pc; 2 steps that leave schema, threshold and maps alone (czsame/cprev, frames); 3 the holder's steps
    (pcstep for the ordinary ones, specstep for schema/threshold stores and the merges: halving maps key k to halve k by
    C04's key_halving, widening moves buckets at or below the merged key to the zero bucket, the others keep their key);
-   4 observers (contO); 5 the invariant InvC over configurations, its preservation, theorems. *)
+   3b the reset code (resetstep: resetCounts stores the configured schema GS and threshold into a set nobody is in flight
+   on - no claim for that set until its maps are empty again; the holder's repeated observation fits like an observer's);
+   4 observers (contO); 5 the invariant InvC over configurations, its preservation, theorems (resets included). *)
 From Coq Require Import ZArith List Bool Lia Permutation Reals.
 From Flocq Require Import Core.Core IEEE754.BinarySingleNaN.
 From Verif Require Import Base.F64 Base.Conc Model.ClassicHist Model.NativeHist Model.NativeConc
